@@ -273,4 +273,19 @@ mod dtrait {
         Val::new(format!("real20({a})"))
     }
 
+    /// the hidden-API form (no `api=`): the MockFns cannot be named, so no clause can mention these methods; a call is answered
+    /// by the default body, by the registered real function (partial mocks), or fails loudly
+    #[unimock(unmock_with=[real_hreq, _])]
+    pub trait HD {
+        fn hreq(&self, a: u8) -> Val;
+        fn hprov(&self, a: u8) -> Val {
+            user_panic_if_armed(2, "user:dflt");
+            Val::new(format!("dflt37({a})[{}]", self.hreq(a).take()))
+        }
+    }
+    pub fn real_hreq(_: &impl HD, a: u8) -> Val {
+        user_panic_if_armed(1, "user:real");
+        Val::new(format!("real36({a})"))
+    }
+
 }
